@@ -91,6 +91,8 @@ Allowed(id, fl) ==
          {RootIdx(dq, fl = QUEUE_OVERCOMMIT), RootIdx(Supported(dq), fl = QUEUE_OVERCOMMIT)}
 
 \* 65536, INT32_MAX, -INT32_MAX, 2^32 + {0x19, 0, 2, 0x21}, -2^32 + 2, 0x7fffffff00000015, 5 * 2^32 + 9
+IdLoSmall == -300         \* mutant / deviation runs (the interesting identifiers are all above)
+IdLoFull == -32768       \* (negative literals cannot be written in a TLC configuration file)
 WideIdsDef == {<<0, 65536>>, <<0, 2147483647>>, <<0, -2147483647>>, <<1, 25>>, <<1, 0>>, <<1, 2>>,
                <<-1, 2>>, <<2147483647, 21>>, <<1, 33>>, <<5, 9>>}
 Ids == {<<0, p>> : p \in IdLo..IdHi} \cup WideIds
